@@ -285,7 +285,7 @@ AdmExpect(r) ==
          ELSE IF r.hid = NONE THEN "ok"
          ELSE IF ~r.rng THEN "refuse"
          ELSE IF r.hid >= cfg.sup THEN "refuse"      \* blinding polynomial of degree hid+1 needs hid+2 powers
-         ELSE IF r.hid = 0 THEN "any"
+         ELSE IF r.hid = 0 THEN "refuse"             \* the property lists a hiding bound of zero; KZG10 accepts it (D13)
          ELSE "ok"
     [] Api = "mlpst" ->
          CASE r.op = "setup" -> IF r.nv = 0 THEN "refuse" ELSE "ok"
@@ -296,6 +296,7 @@ AdmExpect(r) ==
 AdmPredict(r) ==
   IF Api = "mlpst" /\ r.op = "commit" /\ r.nv # cfg.sup /\ ~MlCommitGuardsNumVars THEN "ok"
   ELSE IF Api = "stream" THEN "ok"
+  ELSE IF Api = "kzg10" /\ r.op = "commit" /\ r.deg <= cfg.sup /\ r.hid = 0 /\ r.rng THEN "ok"   \* code fact (D13)
   ELSE IF AdmExpect(r) = "any" THEN "ok" ELSE AdmExpect(r)
 
 \* --------------------------------------------------------------------------
@@ -353,7 +354,8 @@ Spec == Init /\ [][Next]_vars
 Done == pc = "done" /\ Mode # "adm"
 AdmDone == pc = "done" /\ Mode = "adm"
 \* C17: the code model refuses what the property says must be refused and admits what is in-domain
-D_Refusals == AdmDone => (want = "refuse" => out.batch = "refuse") /\ (want = "ok" => out.batch = "ok")
+D13 == Api = "kzg10" /\ stmt.op = "commit" /\ stmt.hid = 0       \* known finding: hiding bound of zero accepted
+D_Refusals == AdmDone /\ ~D13 => (want = "refuse" => out.batch = "refuse") /\ (want = "ok" => out.batch = "ok")
 AndOfSingles == \A i \in DOMAIN out.singles : out.singles[i] = "accept"
 TypeOK == pc \in {"setup", "admit", "commit", "claim", "adv", "check", "done"}
 \* C01
